@@ -156,11 +156,11 @@ def check(tier: str) -> Report:
         # ---- adaptive(): random valid parameterisations and histories -----------------
         for _ in range(600 if tier == "quick" else 30000):
             ts = rng.choice([1.0, 0.9, 0.5, 1e-9, 1e-17, 5e-324, rng.random() or 0.5])
-            mn = rng.choice([1.0, 1.0, 2.0, 1.5])
-            mx_m = mn + rng.choice([0.0, 0.0, 1.0, 4.0])
+            mn, mx_m = rng.choice([(1.0, 1.0), (1.0, 5.0), (2.0, 3.0), (1.5, 1.5), (1.2, 3.4), (1.2, 3.6),
+                                   (1.4, 5.7), (1.4, 6.3), (1.1, 1.1 + rng.random() * 7)])
             win = rng.choice([0.5, 1.0, 5.0])
             now = [0.0]
-            fb = rng.choice([0.0, 0.25, 3.0])
+            fb = rng.choice([0.0, 0.25, 3.0, 1.0, 1.0])
             evaluations += 1
             try:
                 ad = S.adaptive(lambda ctx, _f=fb: _f, window_s=win, target_success=ts, min_multiplier=mn,
@@ -185,7 +185,9 @@ def check(tier: str) -> Report:
                       "raised": repr(err)})
                 continue
             for v in vals:
-                if not (math.isfinite(v) and fb * mn * (1 - 1e-12) <= v <= fb * mx_m * (1 + 1e-12)):
+                # with a fallback of exactly 1.0 the returned value IS the factor: the range is exact
+                slack = 0.0 if fb == 1.0 else 1e-12
+                if not (math.isfinite(v) and fb * mn * (1 - slack) <= v <= fb * mx_m * (1 + slack)):
                     viol("C18:adaptive-multiplier-outside-range", "C18/adaptive/multiplier-range",
                          {"target_success": ts, "min_multiplier": mn, "max_multiplier": mx_m,
                           "fallback": fb, "returned": v})
